@@ -3,12 +3,17 @@
 package main
 
 import (
+	"bufio"
 	"encoding/json"
 	"flag"
 	"fmt"
+	"io"
 	"os"
+	"os/exec"
 	"strings"
 	"time"
+
+	"golang.org/x/tools/go/ssa"
 
 	"verif/engine/symgo"
 )
@@ -45,7 +50,12 @@ func main() {
 	verbose := flag.Bool("v", false, "verbose")
 	frontier := flag.Int("frontier-mult", 8, "breadth-first expansion stops at this many open prefixes per shard")
 	c06 := flag.Bool("c06", false, "enable access log / lock discipline check")
+	workers := flag.Int("workers", 0, "explore with this many worker processes and dynamic work distribution (0/1: in-process)")
+	workerMode := flag.Bool("worker-mode", false, "internal: serve exploration batches on stdin/stdout")
 	flag.Parse()
+	if *workers > 1 && !*workerMode {
+		os.Exit(coordinate(*workers, harnesses, *maxFind, *budgetS, *out, *verbose))
+	}
 
 	ov := map[string][]byte{}
 	for _, o := range overlays {
@@ -83,7 +93,7 @@ func main() {
 		fixed[kv[0]] = v
 	}
 	var results []*symgo.Result
-	for _, h := range harnesses {
+	mkOpt := func(h string) symgo.Options {
 		opt := symgo.Options{
 			Harness:     h,
 			Limits:      symgo.Limits{MaxInstr: *maxInstr, MaxDecisions: *maxDec},
@@ -105,10 +115,17 @@ func main() {
 		if *sitePkgs != "" {
 			opt.SitePkgs = []string{*sitePkgs}
 		}
-		if *budgetS > 0 {
+		if *budgetS > 0 && !*workerMode {
 			opt.Deadline = time.Now().Add(time.Duration(*budgetS) * time.Second)
 		}
-		results = append(results, prog.Explore(mainPkg, opt))
+		return opt
+	}
+	if *workerMode {
+		serve(prog, mainPkg, mkOpt)
+		return
+	}
+	for _, h := range harnesses {
+		results = append(results, prog.Explore(mainPkg, mkOpt(h)))
 	}
 	doc := map[string]interface{}{
 		"load_s":  prog.LoadDur.Seconds(),
@@ -122,4 +139,230 @@ func main() {
 		os.Stdout.Write(enc)
 		fmt.Println()
 	}
+}
+
+// ---- multi-process exploration: one coordinator, n workers, work handed out in batches ----
+
+type wreq struct {
+	Op      string    `json:"op"` // start | run | finish
+	Harness string    `json:"harness,omitempty"`
+	Work    [][]int64 `json:"work,omitempty"`
+	Budget  int64     `json:"budget,omitempty"`
+	MaxMs   int64     `json:"max_ms,omitempty"`
+}
+
+type wresp struct {
+	Ready    bool          `json:"ready,omitempty"`
+	Err      string        `json:"err,omitempty"`
+	Open     [][]int64     `json:"open,omitempty"`
+	Findings int           `json:"findings,omitempty"`
+	Result   *symgo.Result `json:"result,omitempty"`
+	LoadS    float64       `json:"load_s,omitempty"`
+	InitS    float64       `json:"init_s,omitempty"`
+}
+
+// serve is the worker side: the program is loaded; answer requests until stdin closes.
+func serve(prog *symgo.Program, mainPkg *ssa.Package, mkOpt func(string) symgo.Options) {
+	in := bufio.NewReaderSize(os.Stdin, 1<<20)
+	out := json.NewEncoder(os.Stdout)
+	out.Encode(wresp{Ready: true, LoadS: prog.LoadDur.Seconds(), InitS: prog.InitDur.Seconds()})
+	var sess *symgo.Session
+	for {
+		line, err := in.ReadBytes('\n')
+		if len(line) > 0 {
+			var rq wreq
+			if e := json.Unmarshal(line, &rq); e != nil {
+				out.Encode(wresp{Err: "bad request: " + e.Error()})
+				continue
+			}
+			switch rq.Op {
+			case "start":
+				sess = prog.NewSession(mainPkg, mkOpt(rq.Harness))
+				out.Encode(wresp{Ready: true})
+			case "run":
+				var open [][]int64
+				if sess.Failed() {
+					open = nil
+				} else {
+					open = sess.RunBatch(rq.Work, rq.Budget, time.Duration(rq.MaxMs)*time.Millisecond)
+				}
+				out.Encode(wresp{Open: open, Findings: sess.FindingsCount()})
+			case "finish":
+				out.Encode(wresp{Result: sess.Finish(0)})
+				sess = nil
+			}
+		}
+		if err != nil {
+			return
+		}
+	}
+}
+
+type wproc struct {
+	cmd  *exec.Cmd
+	in   io.WriteCloser
+	out  *bufio.Reader
+	busy bool
+	dead bool
+}
+
+func (w *wproc) send(rq wreq) error {
+	b, _ := json.Marshal(rq)
+	_, err := w.in.Write(append(b, '\n'))
+	return err
+}
+
+func (w *wproc) recv() (wresp, error) {
+	var rs wresp
+	line, err := w.out.ReadBytes('\n')
+	if err != nil && len(line) == 0 {
+		return rs, err
+	}
+	if e := json.Unmarshal(line, &rs); e != nil {
+		return rs, fmt.Errorf("bad worker reply: %v: %.200s", e, line)
+	}
+	return rs, nil
+}
+
+func coordinate(n int, harnesses []string, maxFind int, budgetS int, outPath string, verbose bool) int {
+	args := append([]string{}, os.Args[1:]...)
+	args = append(args, "-worker-mode")
+	ws := make([]*wproc, n)
+	var loadS, initS float64
+	for i := range ws {
+		cmd := exec.Command(os.Args[0], args...)
+		cmd.Stderr = os.Stderr
+		in, _ := cmd.StdinPipe()
+		op, _ := cmd.StdoutPipe()
+		if err := cmd.Start(); err != nil {
+			fmt.Fprintln(os.Stderr, "cannot start worker:", err)
+			return 2
+		}
+		ws[i] = &wproc{cmd: cmd, in: in, out: bufio.NewReaderSize(op, 1<<20)}
+	}
+	for _, w := range ws {
+		rs, err := w.recv()
+		if err != nil || !rs.Ready {
+			fmt.Fprintln(os.Stderr, "worker failed to load:", err, rs.Err)
+			return 2
+		}
+		loadS, initS = rs.LoadS, rs.InitS
+	}
+	type reply struct {
+		w   *wproc
+		rs  wresp
+		err error
+	}
+	var results []*symgo.Result
+	for _, h := range harnesses {
+		start := time.Now()
+		var deadline time.Time
+		if budgetS > 0 {
+			deadline = start.Add(time.Duration(budgetS) * time.Second)
+		}
+		for _, w := range ws {
+			w.send(wreq{Op: "start", Harness: h})
+		}
+		for _, w := range ws {
+			w.recv()
+		}
+		queue := [][]int64{nil}
+		replies := make(chan reply, n)
+		busy := 0
+		findings := map[*wproc]int{}
+		total := 0
+		complete, reason := true, ""
+		workerErr := ""
+		for {
+			stop := !complete
+			if !stop && total >= maxFind {
+				complete, reason, stop = false, "stopped after findings", true
+			}
+			if !stop && !deadline.IsZero() && time.Now().After(deadline) {
+				complete, reason, stop = false, "time budget exhausted", true
+			}
+			if !stop {
+				for _, w := range ws {
+					if len(queue) == 0 {
+						break
+					}
+					if w.busy || w.dead {
+						continue
+					}
+					// hand out the shallowest prefixes (largest subtrees); small batches while the queue is short
+					k := len(queue) / (2 * n)
+					if k < 1 {
+						k = 1
+					}
+					if k > 64 {
+						k = 64
+					}
+					// a batch ends after `budget` paths or maxMs of work, whichever comes first; what is left of
+					// its subtree comes back to the queue, so slow paths do not pile up behind one worker
+					budget, maxMs := int64(8), int64(500)
+					if len(queue) > 4*n {
+						budget, maxMs = 512, 3000
+					} else if len(queue) > n {
+						budget, maxMs = 32, 1500
+					}
+					batch := append([][]int64{}, queue[:k]...)
+					queue = queue[k:]
+					w.busy = true
+					busy++
+					w.send(wreq{Op: "run", Work: batch, Budget: budget, MaxMs: maxMs})
+					go func(w *wproc) {
+						rs, err := w.recv()
+						replies <- reply{w, rs, err}
+					}(w)
+				}
+			}
+			if busy == 0 {
+				break
+			}
+			r := <-replies
+			busy--
+			r.w.busy = false
+			if r.err != nil {
+				r.w.dead = true
+				workerErr = "worker died: " + r.err.Error()
+				complete, reason = false, workerErr
+				continue
+			}
+			queue = append(queue, r.rs.Open...)
+			total += r.rs.Findings - findings[r.w]
+			findings[r.w] = r.rs.Findings
+		}
+		var parts []*symgo.Result
+		for _, w := range ws {
+			if w.dead {
+				continue
+			}
+			w.send(wreq{Op: "finish"})
+			rs, err := w.recv()
+			if err == nil && rs.Result != nil {
+				parts = append(parts, rs.Result)
+			}
+		}
+		res := symgo.MergeResults(h, parts, len(queue), complete, reason, maxFind, time.Since(start).Seconds())
+		if workerErr != "" {
+			res.Status, res.Reason = "fault", workerErr
+		}
+		results = append(results, res)
+		if verbose {
+			fmt.Fprintf(os.Stderr, "%s: %s paths=%d wall=%.1fs\n", h, res.Status, res.Stats.Paths, res.WallS)
+		}
+	}
+	for _, w := range ws {
+		w.in.Close()
+		w.cmd.Wait()
+	}
+	doc := map[string]interface{}{"load_s": loadS, "init_s": initS, "results": results, "workers": n}
+	enc, _ := json.MarshalIndent(doc, "", " ")
+	if outPath != "" {
+		os.WriteFile(outPath, enc, 0o644)
+	} else {
+		os.Stdout.Write(enc)
+		fmt.Println()
+	}
+	return 0
 }
